@@ -170,10 +170,25 @@ class Gen:
         (["{% include [boom(), 'x'] ignore missing %}"], 0),
         (["{% set sa@, sb@ = boom() %}"], 0), (["{{ 1 if boom() else 2 }}"], 0), (["{{ [1, 2][boom()] }}"], 0),
         (["{{ 'x'", "   ~ 'y' }}", "{{ boom() }}"], 2),
+        # faults in the iterable expression / the filter / the else branch of every loop shape, with code on later lines
+        (["{% for rq@ in boom() recursive %}", "{{ rq@ }}", "{{ 1 + range(2)|length }}", "{% endfor %}"], 0),
+        (["{% for fq@ in boom() if fq@ %}", "{{ fq@ }}", "{{ range(2)|length }}", "{% endfor %}"], 0),
+        (["{% for eq@ in boom() %}", "x", "{% else %}", "{{ range(2)|length }}", "{% endfor %}"], 0),
+        (["{% for tq@ in [1, 2] if boom() %}", "{{ tq@ }}", "{{ range(2)|length }}", "{% endfor %}"], 0),
+        (["{% for rt@ in [1, 2] if boom() recursive %}", "{{ rt@ }}", "{{ range(2)|length }}", "{% endfor %}"], 0),
+        (["{% for oq@ in [1] %}", "{% for iq@ in boom() recursive %}", "{{ iq@ }}{{ range(2)|length }}", "{% endfor %}", "{{ oq@ + 1 }}", "{% endfor %}"], 1),
+        (["{% for zq@ in [] %}", "a", "{% else %}", "{{ boom() }}", "{{ range(2)|length }}", "{% endfor %}"], 3),
+        (["{% for lq@ in [[1]] recursive %}", "{{ loop(boom()) }}", "{{ range(2)|length }}", "{% endfor %}"], 1),
         # extensions (i18n, do): expressions inside extension tags
         (["{% trans tu@=boom() %}hi {{ tu@ }}{% endtrans %}"], 0), (["{% trans tc@=1, tu@=boom() %}", "hi {{ tu@ }}", "{% endtrans %}"], 0),
         (["{% trans count=boom() %}one{% pluralize %}many {{ count }}{% endtrans %}"], 0),
         (["{% do boom() %}"], 0), (["{% do [1,", "  boom()] %}"], 0), (["{{ _('x') }}{{ gettext(boom()) }}"], 0),
+    ]
+    # constructs whose generated code raises TemplateRuntimeError by itself; the error belongs to the construct's line
+    RTERROR_MARKERS = [
+        (["{% set nsq@ = 1 %}", "{{ nsq@ }}", "", "{% set nsq@.x = 2 %}"], 3),
+        (["{% set nsq@ = 1 %}", "", "{% set nsq@.x, other@ = 2, 3 %}", "{{ other@ }}"], 2),
+        (["{% set nsb@ = 'text' %}", "{{ 1 }}", "{% set nsb@.x %}", "body {{ 1 + 1 }}", "{{ range(2)|length }}", "{% endset %}"], 2),
     ]
     # (lines, index of the line that carries the offending token)
     SYNTAX_MARKERS = [
@@ -245,7 +260,12 @@ class Gen:
         self.multiline_above = False
         self.depth_of_marker = 0
         syntax = r.random() < 0.4
-        if syntax:
+        rterror = (not syntax) and r.random() < 0.08
+        if rterror:
+            mlines, midx = r.choice(self.RTERROR_MARKERS)
+            kk = str(self.fresh() + 800)
+            mlines = [ln.replace("@", kk) for ln in mlines]
+        elif syntax:
             mlines, midx = r.choice(self.SYNTAX_MARKERS)
             kk = str(self.fresh() + 700)
             mlines = [ln.replace("@", kk) for ln in mlines]
@@ -254,13 +274,23 @@ class Gen:
             kk = str(self.fresh() + 900)
             mlines = [ln.replace("@", kk) for ln in mlines]
         shape = r.choice(["single", "single", "include", "extends-child", "extends-parent", "super", "import", "extends-expr"])
-        if shape == "extends-expr" and syntax:
+        if shape == "extends-expr" and (syntax or rterror):
             shape = "single"
+        if not syntax and not rterror and r.random() < 0.04:
+            shape, rterror = "extends-twice", True
         depth = r.randint(0, 3)
         T = {}
         if shape == "single":
             lines, mark = self.template(depth, mlines, midx)
             T["main"] = lines
+            where = "main"
+        elif shape == "extends-twice":       # a second {% extends %}: "extended multiple times" belongs to ITS line
+            head, _ = self.template(r.randint(0, 1), None, 0)
+            gap = self.filler(False) if r.random() < 0.7 else [""]
+            mlines, midx = ["{% extends 'parent' %}"], 0
+            T["main"] = head + ["{% extends 'parent' %}"] + gap + mlines + ["{% block xb %}x{% endblock %}"]
+            T["parent"] = ["parent {% block xb %}p{% endblock %}"]
+            mark = len(head) + 1 + len(gap) + 1
             where = "main"
         elif shape == "extends-expr":
             head, _ = self.template(r.randint(0, 1), None, 0)
@@ -311,7 +341,7 @@ class Gen:
             if r.random() < 0.5:
                 lines = self.modifiers(lines, None)
             srcs[name] = nl.join(lines) + (nl if r.random() < 0.7 else "")
-        return {"templates": srcs, "options": opts, "newline": {"\n": "LF", "\r\n": "CRLF", "\r": "CR"}[nl], "kind": "syntax" if syntax else "runtime",
+        return {"templates": srcs, "options": opts, "newline": {"\n": "LF", "\r\n": "CRLF", "\r": "CR"}[nl], "kind": "rterror" if rterror else ("syntax" if syntax else "runtime"),
                 "shape": shape, "where": where, "line": mark, "marker": mlines, "extra": self.extra,
                 "nontrivial": self.depth_of_marker >= 1 or self.multiline_above}
 
@@ -486,6 +516,12 @@ def observe_history(jinja2, case):
 def judge(case, obs, root="/tpl/"):
     want_file = root + case["where"]
     line = case["line"]
+    if case["kind"] == "rterror":
+        if obs["kind"] != "other:TemplateRuntimeError":
+            return f"expected the construct to raise TemplateRuntimeError, observed {obs}"
+        if obs["tb"] != (want_file, line):
+            return f"TemplateRuntimeError is attributed to {obs['tb']}, the construct is at {(want_file, line)}"
+        return None
     if case["kind"] == "runtime":
         if obs["kind"] != "runtime":
             return f"expected the marker call to raise, observed {obs}"
